@@ -437,8 +437,44 @@ func (e *Exec) execInstr(fr *Frame, b *ssa.BasicBlock, ins ssa.Instruction, st *
 		}
 		fr.returns = append(fr.returns, retPoint{reach: st.reach, vals: vals, st: st.clone()})
 	case *ssa.Panic:
-		e.oblige(st, "nopanic.explicit", x.Pos(), tFalse)
+		// the panic point is recorded first: the obligation below is assumed afterwards (which cuts the path)
+		if pv, ok := e.val(fr, x.X).(*IfaceV); ok {
+			fr.panics = append(fr.panics, retPoint{reach: st.reach, vals: []SV{pv}, st: st.clone()})
+		}
+		// (not assumed afterwards: an explicit panic may be recovered further up, the path stays alive as a panic point)
+		if goal := implies(st.reach, tFalse); goal != tTrue && e.quiet == 0 {
+			e.oblCount["nopanic.explicit"]++
+			e.obls = append(e.obls, &Obligation{Name: fmt.Sprintf("%s/%s#%d", e.base, "nopanic.explicit", e.oblCount["nopanic.explicit"]), Kind: "nopanic.explicit", Cond: goal, Pos: x.Pos(), NAssum: len(e.assumes)})
+		}
+	case *ssa.Defer:
+		fr.defers = append(fr.defers, x)
 	case *ssa.RunDefers:
+		// normal exit: the deferred function literals run with recover() == nil
+		for i := len(fr.defers) - 1; i >= 0; i-- {
+			d := fr.defers[i]
+			var df *ssa.Function
+			var binds []SV
+			if mc, ok := d.Call.Value.(*ssa.MakeClosure); ok {
+				df, _ = mc.Fn.(*ssa.Function)
+				binds = closures[mc]
+			} else if f, ok := d.Call.Value.(*ssa.Function); ok && f.Parent() != nil {
+				df = f
+			}
+			if df == nil || len(df.Blocks) == 0 || fr.depth >= maxInlineDepth {
+				e.note("a deferred call is not executed (not a function literal of the module)")
+				continue
+			}
+			var args []SV
+			for _, a := range d.Call.Args {
+				args = append(args, e.val(fr, a))
+			}
+			delete(st.ghost, "$panicval")
+			sub := st.clone()
+			_, out := e.runInline(fr, df, sub, args, binds)
+			fr.panics = append(fr.panics, e.escaped...)
+			e.escaped = nil
+			st.cells, st.heap, st.ghost, st.hepoch, st.reach = out.cells, out.heap, out.ghost, out.hepoch, out.reach
+		}
 	case *ssa.TypeAssert:
 		v := e.val(fr, x.X).(*IfaceV)
 		ok := eq(v.Tag, e.typeID(x.AssertedType))
@@ -499,7 +535,7 @@ func (e *Exec) execInstr(fr *Frame, b *ssa.BasicBlock, ins ssa.Instruction, st *
 			}
 		}
 		fr.regs[x] = tv
-	case *ssa.Lookup, *ssa.MakeMap, *ssa.MapUpdate, *ssa.Go, *ssa.Defer, *ssa.Send, *ssa.MakeChan:
+	case *ssa.Lookup, *ssa.MakeMap, *ssa.MapUpdate, *ssa.Go, *ssa.Send, *ssa.MakeChan:
 		e.note(fmt.Sprintf("abstracted instruction %T", ins))
 		if v, ok := ins.(ssa.Value); ok {
 			fr.regs[v] = e.freshSV(v.Type(), "abs", st.reach, false)
